@@ -239,6 +239,15 @@ theorem get_does_not_modify (s : Store) (i : Nat) : (step s (.get i)).1 = s := b
   simp only [step]
   cases lookup s i <;> rfl
 
+/-- What was read earlier is not altered by later calls: the outputs of a history are a prefix of the
+    outputs of every extension (a triviality for immutable values; the run-time counterpart — the
+    arrays handed out are copies — is what the harness oracle tests). -/
+theorem get_set_independent (s : Store) (a b : List Op) :
+    run s (a ++ b) = run s a ++ run (exec s a) b := by
+  induction a generalizing s with
+  | nil => rfl
+  | cons op a ih => simp only [List.cons_append, run, exec, ih]
+
 /-- reading an empty slot is a `KeyError` -/
 theorem get_empty_errors (s : Store) (i : Nat) (h : lookup s i = none) :
     (step s (.get i)).2 = .err .keyError := by
